@@ -43,6 +43,8 @@ fn first(l: List[Tr]) -> Tr { match l.get(0) { Some(v) => v, None => mk(902) } }
 fn mkr(k: u64) -> R { R { t: mk(k), n: 1 } }
 fn optn(c: bool) -> i32? { if c { Option.Some(1) } else { Option.None } }
 fn optb(c: bool, r: bool) -> bool? { if c { Option.Some(r) } else { Option.None } }
+fn opts(c: bool) -> String? { if c { Option.Some(f\"zz{c}\") } else { Option.None } }
+fn optl(c: bool, x: Tr) -> List[Tr]? { if c { Option.Some([x]) } else { Option.None } }
 fn ena(e: En) -> u64 { match e { A(x, y) => val(x) + val(y), B(n) => 1, C => 2, D(n, x) => n + val(x), E(p, q, x) => val(x), F(x, n, s) => val(x) + n } }
 fn payd(e: En) -> Tr { match e { D(n, x) => x, E(p, q, x) => x, F(x, n, s) => x, A(x, y) => y, _ => mk(903) } }
 ";
@@ -307,6 +309,18 @@ impl G {
                         "exit_in_record_middle_owned_field",
                         "exit_in_match_guard",
                         "exit_in_match_guard_two_binders",
+                        "exit_in_fstring_part",
+                        "exit_in_string_concat",
+                        "exit_in_list_concat",
+                        "exit_in_eq_operand",
+                        "exit_in_field_assignment",
+                        "exit_in_assignment",
+                        "exit_in_for_iterable",
+                        "exit_in_nested_record",
+                        "exit_in_nested_list",
+                        "exit_in_block_value",
+                        "exit_in_while_condition",
+                        "exit_in_if_condition",
                     ][kind as usize],
                 );
                 let r = self.fresh("r");
@@ -340,7 +354,7 @@ impl G {
                     let op = if self.pos % 2 == 0 { "&&" } else { "||" };
                     return format!("let {r} = {v1}; let {r}c = {c1} {op} {{ {ret} }};");
                 }
-                if kind >= 9 {
+                if kind == 9 || kind == 10 {
                     // the guard of a match arm leaves the function while the arm's
                     // binders (and the scrutinee) are alive
                     let c2 = self.cond();
@@ -363,6 +377,33 @@ impl G {
                     } else {
                         format!("match En.A({v1}, {v2}) {{ A({r}, {r}z) if {exit_bool} => {{ emit_tr({r}z); }}, _ => {{ }}, }}")
                     };
+                }
+                // exits of type String and List[Tr]
+                let (exit_str, exit_list) = if self.sig == Sig::RetOpt {
+                    (format!("opts({c1})?"), format!("optl({c1}, {v2})?"))
+                } else {
+                    let ret = match self.sig {
+                        Sig::Plain | Sig::TrArg | Sig::StrListArg => "return 9;".to_string(),
+                        Sig::RetTr => format!("return {v3};"),
+                        Sig::Filter => format!("reject {v3};"),
+                        Sig::RetOpt => unreachable!(),
+                    };
+                    (format!("{{ if !({c1}) {{ {ret} }} f\"zz{{a}}\" }}"), format!("{{ if !({c1}) {{ {ret} }} [{v2}] }}"))
+                };
+                match kind {
+                    11 => return format!("let {r} = f\"p{{a}}\"; let {r}s = f\"{{{r}}}{{({exit_str})}}q\";"),
+                    12 => return format!("let {r} = f\"p{{a}}\"; let {r}s = {r} + {exit_str}; let {r}t = f\"q{{b}}\".append({exit_str});"),
+                    13 => return format!("let {r} = [{v1}]; let {r}s = {r} + {exit_list};"),
+                    14 => return format!("let {r} = {v1} == {exit_tr};"),
+                    15 => return format!("let {r} = R {{ t: {v1}, n: 2 }}; {r}.t = {exit_tr};"),
+                    16 => return format!("let {r} = {v1}; {r} = {exit_tr};"),
+                    17 => return format!("for {r} in [{v1}, {exit_tr}] {{ emit_tr({r}); }}"),
+                    18 => return format!("let {r} = {{ a: {{ b: {v1}, c: {exit_tr} }}, d: mk(3) }}; let {r}o = Option.Some(R {{ t: {exit_tr}, n: 1 }});"),
+                    19 => return format!("let {r} = [[{v1}], {exit_list}];"),
+                    20 => return format!("let {r} = {v1}; let {r}u = {{ let q = mk(4); {exit_tr} }};"),
+                    21 => return format!("let {r} = {v1}; let {r}i = 0; while {r}i < 2 && val({exit_tr}) > 0 {{ {r}i = {r}i + 1; }}"),
+                    22 => return format!("let {r} = {v1}; if val({exit_tr}) > 1 {{ emit_tr({r}); }}"),
+                    _ => {}
                 }
                 match kind {
                     6 => format!("let {r} = R {{ n: {exit_i32}, t: {v1} }};"),
@@ -413,11 +454,26 @@ pub enum St {
     /// the right operand of `&&` / `||` (5), a record field BEFORE an owned field
     /// (6), an owned field of an anonymous record with an owned field after it (7),
     /// the middle owned field of a named record (8), a match guard with one (9) or
-    /// two (10) owned binders alive
+    /// two (10) owned binders alive; f-string part (11), string (12) and list (13)
+    /// concatenation operand, `==` operand (14), field (15) and variable (16)
+    /// assignment, `for` iterable (17), nested record / Some(record) (18), nested
+    /// list (19), block value (20), `while` (21) and `if` (22) condition
     ExitIn(u8),
 }
 
-pub const STMTS: [St; 34] = [
+pub const STMTS: [St; 46] = [
+    St::ExitIn(11),
+    St::ExitIn(12),
+    St::ExitIn(13),
+    St::ExitIn(14),
+    St::ExitIn(15),
+    St::ExitIn(16),
+    St::ExitIn(17),
+    St::ExitIn(18),
+    St::ExitIn(19),
+    St::ExitIn(20),
+    St::ExitIn(21),
+    St::ExitIn(22),
     St::ExitIn(6),
     St::ExitIn(7),
     St::ExitIn(8),
